@@ -18,8 +18,8 @@ C01_EVENTS = {"new", "slice", "read", "set", "apply", "applyslice", "copyfrom", 
 def configs(ctx):
     if ctx.quick:
         return [("NdArray_views.cfg", None), ("NdArray_writes.cfg", None), ("NdArray_chainw.cfg", None),
-                ("NdArray_reduce.cfg", None), ("NdArray_zstep.cfg", None), ("NdArray_bcast.cfg", None), ("NdArray_siblings.cfg", None), ("NdArray_twowrites.cfg", None), ("NdArray_rank4.cfg", (15, 8)), ("NdArray_sim.cfg", (20, 14))]
-    return [("NdArray_views.cfg", None), ("NdArray_writes.cfg", None), ("NdArray_chainw.cfg", None), ("NdArray_reduce.cfg", None), ("NdArray_zstep.cfg", None), ("NdArray_bcast_t.cfg", None), ("NdArray_siblings.cfg", None), ("NdArray_twowrites.cfg", None), ("NdArray_rank4.cfg", (120, 8)),
+                ("NdArray_reduce.cfg", None), ("NdArray_zstep.cfg", None), ("NdArray_bcast.cfg", None), ("NdArray_siblings.cfg", None), ("NdArray_neg.cfg", None), ("NdArray_negw.cfg", None), ("NdArray_twowrites.cfg", None), ("NdArray_rank4.cfg", (15, 8)), ("NdArray_sim.cfg", (20, 14))]
+    return [("NdArray_views.cfg", None), ("NdArray_writes.cfg", None), ("NdArray_chainw.cfg", None), ("NdArray_reduce.cfg", None), ("NdArray_zstep.cfg", None), ("NdArray_bcast_t.cfg", None), ("NdArray_siblings.cfg", None), ("NdArray_neg.cfg", None), ("NdArray_negw.cfg", None), ("NdArray_twowrites.cfg", None), ("NdArray_rank4.cfg", (120, 8)),
             ("NdArray_views_t.cfg", None), ("NdArray_views3.cfg", None), ("NdArray_writes_t.cfg", None), ("NdArray_sim.cfg", (240, 16))]
 
 
@@ -58,6 +58,7 @@ def run(ctx):
             continue
         ndarray.account(ctx, st, s)
         ndarray.report_fails(ctx, s, "C01")
+    ndarray.big_arrays(ctx, ("footprint",))
     run_traces(ctx, C01_EVENTS, "C01", 150 if ctx.quick else 2500, 40)
     ctx.notes["exhaustive_note"] = "within the bounds of each BFS configuration (see configs); simulation and traces are samples"
     ctx.assumptions += ["test values are small non-negative integers (exact in all 8 element types)",
